@@ -90,3 +90,17 @@ def open_hds(files, opaque, p):
 
     parent = opaque["parent"] if p.get("has_parent") else None
     return HDS(files["img"], parent)
+
+
+@register("qcow2")
+def open_qcow2(files, opaque, p):
+    from dissect.hypervisor.disk import qcow2
+
+    kw = {}
+    if p.get("data_file"):
+        kw["data_file"] = files["data"]
+    if p.get("backing") == "file":
+        kw["backing_file"] = opaque["backing"]
+    elif p.get("backing") == "allow_no":
+        kw["backing_file"] = qcow2.ALLOW_NO_BACKING_FILE
+    return qcow2.QCow2(files["img"], **kw)
